@@ -378,7 +378,10 @@ impl<T: BitRead> PackedRead for T {
         extensible: bool,
     ) -> Result<u64, Error> {
         if extensible && self.read_bit()? {
-            Ok(self.read_normally_small_length()? + std_variants)
+            let index = self.read_normally_small_length()?;
+            index
+                .checked_add(std_variants)
+                .ok_or_else(|| ErrorKind::InvalidChoiceIndex(index, std_variants).into())
         } else if std_variants == 0 {
             Err(ErrorKind::InvalidChoiceIndex(0, std_variants).into())
         } else {
